@@ -226,6 +226,23 @@ pub fn digest_sections(ctx: &Context) -> Vec<(&'static str, String)> {
             }
         }
     }
+    // raw values of all globals as stored by the VM (hook numbat::verif::qty::raw_global):
+    // f64 bit patterns and unit for quantities, canonical rendering otherwise
+    let bits: Vec<String> = names
+        .iter()
+        .map(|v| {
+            catch_unwind(AssertUnwindSafe(|| match numbat::verif::qty::raw_global(ctx, v) {
+                Some(numbat::value::Value::Quantity(q)) => format!(
+                    "{v}={:016x}<{}>",
+                    q.unsafe_value().to_f64().to_bits(),
+                    q.unit()
+                ),
+                Some(other) => format!("{v}={}", numbat::verif::vm::value_repr(&other)),
+                None => format!("{v}=?"),
+            }))
+            .unwrap_or_else(|_| format!("{v}=PANIC"))
+        })
+        .collect();
     vec![
         ("imp", imp.join(",")),
         ("vars", vars.join(",")),
@@ -234,12 +251,16 @@ pub fn digest_sections(ctx: &Context) -> Vec<(&'static str, String)> {
         ("dims", dims.join(",")),
         ("ureps", unitreps.join(",")),
         ("vals", vals.join(",")),
+        ("bits", bits.join(",")),
     ]
 }
 
 pub fn digest(ctx: &Context, full: bool) -> String {
+    // the insertion-ordered digest (tags d/D/U) has no `bits` section: it is also what the Coq
+    // miniature model prints; f64 bit patterns are part of the sorted digest (tags s/S)
     digest_sections(ctx)
         .into_iter()
+        .filter(|(k, _)| *k != "bits")
         .map(|(k, v)| {
             if full {
                 format!("{k}=[{v}]")
